@@ -2,14 +2,14 @@
 {
  "property": "C03",
  "standin": "B-layout",
- "bound": "generated test files through Example.run_inline: 23 statement layouts x 5 headers x 21 argument edits x 6 flag sets, LF/CRLF, formatter-clean and not clean (C03); 9 pyproject [tool.black] variants x 5 shapes x values around the line limit (C20); Is()/f-string/star-expression/nested-snapshot name inside list/tuple/dict/call at every position (C10); containers of hand-written element expressions, depth<=2, width<=4, random edit scripts + all sequence pairs over 3 symbols up to length 3 (C11)",
+ "bound": "generated test files through Example.run_inline: 23 statement layouts x 6 headers x 21 argument edits x 6 flag sets, LF/CRLF, formatter-clean and not clean (C03); 9 pyproject [tool.black] variants x 5 shapes x values around the line limit (C20); Is()/f-string/star-expression/nested-snapshot name inside list/tuple/dict/call at every position (C10); containers of hand-written element expressions, depth<=2, width<=4, random edit scripts + all sequence pairs over 3 symbols up to length 3 (C11)",
  "input": {
   "prop": "C03",
-  "name": "three_one_line/docfuture",
+  "name": "call_spaced/pagebreak",
   "flags": "create,fix",
-  "source": "\"\"\"doc\n\nsecond line\n\"\"\"\nfrom __future__ import annotations\n\nimport os\nfrom inline_snapshot import snapshot\ndef test_a():\n    assert \"\u00e4\ud83d\ude00\" == snapshot(\"\u00f6\"); assert [\"\u00e4\", \"\u00fc\ud83d\ude00\", \"\u00f6\"] == snapshot([\"\u00e4\", \"\u00f6\"]); y = \"\u00df\ud83d\ude00\"; assert 1 == snapshot()\n"
+  "source": "from inline_snapshot import snapshot\n\f\n# page two \u2028 same comment\nsep = 'a\u0085b'\ndef test_a():\n    assert [2, 3] == snapshot  (  [\n        1,  # one\n        2,\n    ]  )\n"
  },
- "detail": "[C03 three_one_line/docfuture flags=create,fix] [other] rewritten file is not valid Python: invalid syntax (test_something.py, line 10)\n--- before ---\n\"\"\"doc\n\nsecond line\n\"\"\"\nfrom __future__ import annotations\n\nimport os\nfrom inline_snapshot import snapshot\ndef test_a():\n    assert \"\u00e4\ud83d\ude00\" == snapshot(\"\u00f6\"); assert [\"\u00e4\", \"\u00fc\ud83d\ude00\", \"\u00f6\"] == snapshot([\"\u00e4\", \"\u00f6\"]); y = \"\u00df\ud83d\ude00\"; assert 1 == snapshot()\n\n--- after ---\n\"\"\"doc\n\nsecond line\n\"\"\"\nfrom __future__ import annotations\n\nimport os\nfrom inline_snapshot import snapshot\ndef test_a():\n    assert \"\u00e4\ud83d\ude00\" == snapshot(\"\u00f6\")\"\u00e4\ud83d\ude00\"sert [\"\u00e4\", \"\u00fc\ud83d\ude00\", \"\u00f6\"] == snapshot([\"\u00e4\", \"\u00fc\ud83d\ude00\", \"\u00f6\"]); y = \"\u00df\ud83d\ude00\"; assert 1 == snapshot(1)\n"
+ "detail": "[C03 call_spaced/pagebreak flags=create,fix] [other] rewritten file is not valid Python: invalid decimal literal (test_something.py, line 5)\n--- before ---\nfrom inline_snapshot import snapshot\n\f\n# page two \u2028 same comment\nsep = 'a\u0085b'\ndef test_a():\n    assert [2, 3] == snapshot  (  [\n        1,  # one\n        2,\n    ]  )\n\n--- after ---\nfrom inline_snapshot import snapshot\n\f\n# page two \u2028 same comment\nsep = 'a\u0085b'\ndef test_, 3asser_a():\n    assert [2, 3] == snapshot  (  [\n        1,  # one\n        2,\n    ]  )\n"
 }
 """
 
@@ -62,7 +62,7 @@ def rerun_identity(src):
         inline_snapshot.snapshot = real
 
 import ast
-SRC = '"""doc\n\nsecond line\n"""\nfrom __future__ import annotations\n\nimport os\nfrom inline_snapshot import snapshot\ndef test_a():\n    assert "ä😀" == snapshot("ö"); assert ["ä", "ü😀", "ö"] == snapshot(["ä", "ö"]); y = "ß😀"; assert 1 == snapshot()\n'
+SRC = "from inline_snapshot import snapshot\n\x0c\n# page two \u2028 same comment\nsep = 'a\x85b'\ndef test_a():\n    assert [2, 3] == snapshot  (  [\n        1,  # one\n        2,\n    ]  )\n"
 FLAGS = 'create,fix'
 CWD_FILES = {}
 files = {'test_something.py': SRC}
@@ -94,13 +94,13 @@ def masked(src, changed):
             out.append(src[pos:a] + chr(0))
             pos = b
     return ''.join(out) + src[pos:]
-CHANGED = [0, 1, 2]
+CHANGED = [0]
 if black.format_str(lf, mode=mode) != lf:  # not formatter-clean: byte for byte outside the changed arguments
     assert masked(SRC, CHANGED) == masked(new, CHANGED), 'C03: text outside the parentheses of the changed snapshot() calls differs'
 # finally the exact oracle of the stand-in (needs /verif on sys.path)
 sys.path.insert(0, '/verif')
 from bounded import b_layout
-CASE = {'prop': 'C03', 'name': 'three_one_line/docfuture', 'src': '"""doc\n\nsecond line\n"""\nfrom __future__ import annotations\n\nimport os\nfrom inline_snapshot import snapshot\ndef test_a():\n    assert "ä😀" == snapshot("ö"); assert ["ä", "ü😀", "ö"] == snapshot(["ä", "ö"]); y = "ß😀"; assert 1 == snapshot()\n', 'flags': 'create,fix', 'changed': [0, 1, 2], 'crlf': False, 'make_clean': False, 'mode_opts': {}, 'expect_green': True}
+CASE = {'prop': 'C03', 'name': 'call_spaced/pagebreak', 'src': "from inline_snapshot import snapshot\n\x0c\n# page two \u2028 same comment\nsep = 'a\x85b'\ndef test_a():\n    assert [2, 3] == snapshot  (  [\n        1,  # one\n        2,\n    ]  )\n", 'flags': 'create,fix', 'changed': [0], 'crlf': False, 'make_clean': False, 'mode_opts': {}, 'expect_green': True}
 out = b_layout.eval_case(CASE)
 assert out['status'] != 'fail', out['detail']
 
